@@ -191,9 +191,19 @@ Theorem C07_chap_roundtrip :
   forall v n, lenN v < 256 -> chap_response (chap_build v n) = Ok (Some (v, n)).
 Proof. exact chap_roundtrip. Qed.
 Print Assumptions C07_chap_roundtrip.
-(* the hypotheses of the *_fuel theorems and of the nesting theorem are satisfiable *)
+(* the explicit-fuel form for the DHCPv4 option walk (one iteration per pad byte: the tightest loop) *)
+Theorem C07_dhcp4_options_total_fuel :
+  forall fuel data o, (length data < fuel)%nat -> is_crash (o4_loop fuel data o) = false.
+Proof. exact o4_loop_total. Qed.
+Print Assumptions C07_dhcp4_options_total_fuel.
+(* the fuel hypotheses are satisfiable AND close to necessary: inputs that run out of fuel one or two units below the
+   bound of the theorem, and the hypothesis of the nesting theorem instantiated on a real two-level relay chain *)
 Example C07_fuel_nonvacuous :
-  (length [12; 0; 0; 9; 0; 4; 1; 2; 3; 4] < 11)%nat /\ 4 <= 34.
+  (length (repeat 0 7) < 8)%nat /\ o4_loop 7 (repeat 0 7) o4_0 = Ok o4_0 /\ o4_loop 6 (repeat 0 7) o4_0 = OutOfFuel /\
+  ppp_opts_loop 4 [1; 2; 1; 2; 1; 2] = Ok [(1, []); (1, []); (1, [])] /\ ppp_opts_loop 3 [1; 2; 1; 2; 1; 2] = OutOfFuel /\
+  (exists inner, find_relay_msg 2 34 ex_chain2 = Ok (Some inner) /\ lenN inner = 66 /\ lenN ex_chain2 = 109 /\ 4 <= 34) /\
+  find_relay_msg 1 34 ex_chain2 = OutOfFuel /\
+  unwrap_relay 1 ex_chain2 = OutOfFuel /\ is_crash (unwrap_relay 2 ex_chain2) = false /\ (length ex_chain2 < 110)%nat.
 Proof. exact fuel_nonvacuous. Qed.
 Print Assumptions C07_fuel_nonvacuous.
 
